@@ -3,9 +3,11 @@ Proof: coq/Properties/C15.v over coq/C15/Model.v (getters with a map-iteration o
 the complete C16 block model; saver / DBC exporter = order skeletons).  Tie: the Go harness
 (props/C15/harness, public API only) builds generated networks with deliberately tied sort keys
 and (A) exports DBC / Markdown / wire 25x (50x) in one process while cycling runtime.GOMAXPROCS,
+(D) ExportNetwork (file per bus) for 1..9 buses under GOMAXPROCS 1/2/3/4/8/16, (E) histories with reads
+interleaved with changes against a read-free twin and the model's own reload,
 (B) rebuilds the specification in a permuted construction order, (C) reloads the saved bytes after
 permuting every map-like repeated field; all outputs are compared byte for byte (the property
-predicate).  The process is started under GOMAXPROCS = 1, 4, 16 and the id-free outputs are
+predicate).  The process is started under GOMAXPROCS = 1, 2, 3, 4, 8, 16 and the id-free outputs are
 compared across the three processes.  The extracted Coq model is run on the raw network (map-like
 fields in arbitrary order) under the identity, reversing and rotating oracle and its Markdown
 blocks / save order / DBC order are compared with the implementation's."""
@@ -15,7 +17,7 @@ import re
 import vlib
 
 PID = "C15"
-PROCS = (1, 4, 16)
+PROCS = (1, 2, 3, 4, 8, 16)
 
 
 def build_harness(ctx):
@@ -27,8 +29,10 @@ def build_harness(ctx):
 
 def run_impl(ctx, exe, hdir, procs, case=None):
     out = os.path.join(ctx.scratch, "cases-%d.txt" % procs)
+    sdir = os.path.join(ctx.scratch, "files-%d" % procs)
+    os.makedirs(sdir, exist_ok=True)
     env = vlib.goenv()
-    env.update({"VERIF_OUT": out, "VERIF_SEED": str(ctx.seed), "VERIF_TIER": ctx.tier, "GOMAXPROCS": str(procs)})
+    env.update({"VERIF_SCRATCH": sdir, "VERIF_OUT": out, "VERIF_SEED": str(ctx.seed), "VERIF_TIER": ctx.tier, "GOMAXPROCS": str(procs)})
     if case is not None:
         env["VERIF_CASE"] = str(case)
     rc, log = vlib.sh([exe], cwd=hdir, env=env, timeout=2400)
@@ -77,8 +81,11 @@ def run(ctx):
         return
     summaries, digests, mism_total, evals, hist = {}, {}, 0, 0, {}
     first_out = None
+    import concurrent.futures as cf
+    with cf.ThreadPoolExecutor(max_workers=len(procs_list)) as ex:
+        runs = dict(zip(procs_list, ex.map(lambda p: run_impl(ctx, exe, hdir, p, case), procs_list)))
     for procs in procs_list:
-        rc, log, out = run_impl(ctx, exe, hdir, procs, case)
+        rc, log, out = runs[procs]
         if ctx.replay:
             print(log)
         if rc != 0 or not os.path.exists(out + ".summary"):
@@ -137,6 +144,8 @@ def run(ctx):
         "reloads_permuted_save": sum(s.get("reloads", 0) for s in summaries.values()),
         "loads_failed_skipped": sum(s.get("loadfailed", 0) for s in summaries.values()),
         "cross_process_comparisons": cross,
+        "export_network_files_compared": sum(s.get("networkfiles", 0) for s in summaries.values()),
+        "history_comparisons": sum(s.get("histories", 0) for s in summaries.values()),
         "distinct_nontrivial": s0.get("nontrivial", 0),
         "distinct_cases": s0.get("distinct", 0),
         "rule": "cases = seeded random networks (4 of 5 with deliberately tied sort keys: same-named types / units / enums / "
@@ -144,8 +153,12 @@ def run(ctx):
                 "to a sibling's message id, same-named receivers); evaluations = export triples (DBC of every bus, Markdown, wire) "
                 "compared byte for byte: repetitions on the unchanged model under runtime.GOMAXPROCS 1/4/16, rebuilds in a permuted "
                 "construction order (wire modulo the renaming entity id -> first-occurrence index, create_time dropped), reloads of "
-                "the save with every map-like repeated field permuted, and the same specification across processes started with "
-                "GOMAXPROCS=1,4,16; each case also compared with the Coq model under three oracles; non-trivial = distinct case "
+                "the save with every map-like repeated field permuted, ExportNetwork of networks with 1..9 buses under runtime.GOMAXPROCS "
+                "1/2/3/4/8/16 (every file against ExportBus of its bus), histories (build, read, then Node.UpdateID / UpdateName / "
+                "Bus.UpdateName / remove+re-add / Message.UpdateID / SetStaticCANID / priority / renames ... with exports, String() "
+                "and getter calls between every two changes) against a fresh build with the same changes and no reads and against "
+                "the model's own reload, and the same specification across processes started with GOMAXPROCS=1,2,3,4,8,16; every "
+                "case (and every post-history state) also compared with the Coq model under three oracles; non-trivial = distinct case "
                 "(hash of its Markdown + DBC) in which at least one bus lists two definitions / messages with a tied sort key",
         "distribution": hist,
         "model_mismatches": mism_total,
